@@ -381,3 +381,64 @@ func TestC03LookupHost(t *testing.T) {
 		}
 	})
 }
+
+// "If any candidate exists the request is routed" must hold for every pick of
+// the route's picker, not only the first one: routes with several targets and
+// fixed weights (incl. tiny ones, which get a single slot of the 10,000) are
+// looked up for a whole round-robin cycle and for every slot the random picker
+// can draw; each answer must be a target of the most specific route.
+func TestC03EveryPickRouted(t *testing.T) {
+	hx.Check(t, hx.Scale(40, 800), func(t *rapid.T) {
+		n := rapid.IntRange(2, 5).Draw(t, "targets")
+		var cfg strings.Builder
+		specific := map[string]bool{}
+		for i := 0; i < n; i++ {
+			h := fmt.Sprintf("t%d", i)
+			specific[h] = true
+			fmt.Fprintf(&cfg, "route add svc foo.com/a/b http://%s:80/", h)
+			switch rapid.IntRange(0, 4).Draw(t, "wkind") {
+			case 0:
+				fmt.Fprintf(&cfg, " weight %s", rapid.SampledFrom([]string{"0.00001", "0.00005", "0.000001", "0.00009"}).Draw(t, "tiny"))
+			case 1:
+				fmt.Fprintf(&cfg, " weight %s", rapid.SampledFrom([]string{"0.3", "0.5", "0.0001", "0.33333", "0.9"}).Draw(t, "w"))
+			}
+			cfg.WriteString("\n")
+		}
+		cfg.WriteString("route add other foo.com/a http://less-specific-path:80/\nroute add other *.com/a/b http://wildcard-host:80/\nroute add fallback /a http://no-host:80/\n")
+		tbl, err := route.NewTable(bytes.NewBufferString(cfg.String()))
+		if err != nil {
+			t.Fatalf("%v\n%s", err, cfg.String())
+		}
+		var rt *route.Route
+		for _, r := range tbl["foo.com"] {
+			if r.Path == "/a/b" {
+				rt = r
+			}
+		}
+		ring := rt.VerifRingLen()
+		req := mkReq(reqSpec{host: "foo.com", path: "/a/b/c"})
+		cache := route.NewGlobCache(10)
+		check := func(k int, picker string, got *route.Target) {
+			if got == nil {
+				t.Fatalf("lookup %d of %d with the %s picker: request not routed although candidates exist\n%s", k, ring, picker, cfg.String())
+			}
+			if !specific[hostOf(got)] {
+				t.Fatalf("lookup %d of %d with the %s picker: request routed to %s instead of a target of the most specific route foo.com/a/b\n%s", k, ring, picker, hostOf(got), cfg.String())
+			}
+		}
+		for k := 0; k < ring+3; k++ {
+			check(k, "rr", tbl.Lookup(req, "", route.Picker["rr"], route.Matcher["prefix"], cache, false))
+		}
+		next := 0
+		restore := route.VerifSetRandIntn(func(m int) int { v := next % m; next++; return v })
+		for k := 0; k < ring; k++ {
+			check(k, "rnd", tbl.Lookup(req, "", route.Picker["rnd"], route.Matcher["prefix"], cache, false))
+		}
+		restore()
+		hx.EvalN(2*ring + 3)
+		hx.Class("every-pick-routed")
+		if ring > n {
+			hx.NonTrivial("everypick|" + cfg.String())
+		}
+	})
+}
